@@ -864,6 +864,12 @@ class Translator:
                         env2[p] = self.eval(dflt[j], callee.env, callee.mod, depth)
                     else:
                         raise Unmodelled("closure argument %s missing" % p)
+            if a.vararg is not None:
+                env2[a.vararg.arg] = tuple(args[len(pos):])
+            elif len(args) > len(pos):
+                raise Unmodelled("too many positional arguments for a closure")
+            if a.kwarg is not None:
+                env2[a.kwarg.arg] = {k_: v_ for k_, v_ in kwargs.items() if k_ not in pos}
             if isinstance(node, ast.Lambda):
                 return self.eval(node.body, env2, callee.mod, depth + 1)
             if _is_generator(node):
